@@ -22,6 +22,7 @@ RULE = (
     "silently ignored / warned about with UserWarning / raises ValueError according to on_missing, while a selected name that WAS produced (a "
     "None-valued one preferred) is returned with its value and fires no policy. Non-trivial: an "
     "entry point or a selection is configured; distinct = (program shape, configuration)."
+    ' Run-time selections are given as list or tuple; a plain input named in the selection (list, tuple, str, alone or next to an output) must be rejected or at least never returned.'
 )
 ASSUMPTIONS = ["'downstream' is computed on the program spec, independently of the library's own graph"]
 DECIDING = ["runs_checked", "keys_checked"]
